@@ -37,7 +37,8 @@ Fixpoint drop_old (size nw : N) (l : list N) (k : N) : list N * N :=
 Definition evict (size : N) (s : qst) : qst :=
   match drop_old size (now s) (qf s) (qn s) with
   | ([], k) =>
-      let (f', k') := drop_old size (now s) (rev (qb s)) k in
+      (* rev_append, not the quadratic List.rev: this list is evaluated *)
+      let (f', k') := drop_old size (now s) (rev_append (qb s) []) k in
       mkQ f' [] k' (now s) (qfrozen s)
   | (f', k) => mkQ f' (qb s) k (now s) (qfrozen s)
   end.
